@@ -7,7 +7,9 @@ re-run in a fresh interpreter):
   {"op": "construct", "k": "add"|"mul"|"neg"|"lift", "a": id, "b": id}    new Var, id = next free
   {"op": "inline", "model": k, "x": id, "how": "kw"|"pos"|"missing"|"unknown"}   inline(models[k])(…)
   {"op": "renames", "kw": [[key, id]], "raises": bool}   the context manager on its own
-  {"op": "build_new", "out": id, "drop": bool}            build a Var constructed during the history (twice)
+  {"op": "build_new", "outs": [ids], "drop": bool}        build Vars constructed during the history (twice);
+                                                          the same request later in the history must give the same bytes
+  construct kinds "id19"/"id21": Identity of opset 19 / 21 (forces the model's default opset up)
 Nothing here uses the Lean model.
 """
 from __future__ import annotations
@@ -168,6 +170,7 @@ def run_case(prog, hist, ref, collect_all=False):
         viol.append(["bytes:repeat-differs", f"the same request built twice in a row: {out['ref_before']} then {second}", -1])
 
     del lf.DICT_MUTATIONS[:]
+    seen_new = {}
     for step, o in enumerate(hist):
         before = snapshot(env)
         mb = {k: m.SerializeToString(deterministic=True) for k, m in models.items()}
@@ -183,8 +186,12 @@ def run_case(prog, hist, ref, collect_all=False):
             elif kind == "construct":
                 a, b = env[o["a"]], env.get(o.get("b"))
                 k = o["k"]
-                if k == "lift":
-                    v = op.reduce_sum(op.cast(a, to=np.float32), keepdims=0)
+                if k in ("id19", "id21"):
+                    import importlib
+
+                    v = importlib.import_module("spox.opset.ai.onnx.v" + k[2:]).identity(a)  # a genuinely newer operator
+                elif k == "lift":
+                    v = lf.lift_var(op, a)
                 elif k == "neg":
                     v = op.neg(a)
                 else:
@@ -216,18 +223,26 @@ def run_case(prog, hist, ref, collect_all=False):
                 except Exception:  # noqa: BLE001
                     tag = "inline-failed"
             elif kind == "build_new":
-                if o["out"] not in env:
+                outs_ = o.get("outs", [o["out"]] if "out" in o else [])
+                if any(x not in env for x in outs_):
                     tag = "skipped"
                 else:
                     arg_ids = [n["id"] for n in prog["nodes"] if n["k"] == "arg"]
-                    req = {"inputs": [[f"x{j}", a] for j, a in enumerate(arg_ids)], "outputs": [["o", o["out"]]], "drop": o["drop"]}
+                    req = {"inputs": [[f"x{j}", a] for j, a in enumerate(arg_ids)],
+                           "outputs": [[f"o{j}", x] for j, x in enumerate(outs_)], "drop": o["drop"]}
                     g1 = lf.run_build(env, req)
                     g2 = lf.run_build(env, req)
                     tag = "build-ok" if g1[0] == "ok" else "build-failed"
                     s1 = sha(g1[1]) if g1[0] == "ok" else "err:" + g1[1]
                     s2 = sha(g2[1]) if g2[0] == "ok" else "err:" + g2[1]
                     if s1 != s2:
-                        viol.append(["bytes:repeat-differs", f"a Var made during the history built twice in a row: {s1} then {s2} (step {step})", step])
+                        viol.append(["bytes:repeat-differs", f"Vars made during the history built twice in a row: {s1} then {s2} (step {step})", step])
+                    # the same request earlier in this history must have given the same bytes
+                    rk = (tuple(outs_), bool(o["drop"]))
+                    if rk in seen_new and seen_new[rk][0] != s1:
+                        viol.append(["bytes:differs-after-history",
+                                     f"Vars #{list(outs_)} built at step {seen_new[rk][1]} gave {seen_new[rk][0]}, the same request at step {step} gives {s1}", step])
+                    seen_new.setdefault(rk, (s1, step))
             elif kind == "renames" and manager is None:
                 tag = "skipped"
             elif kind == "renames":
@@ -269,15 +284,30 @@ def gen_history(rng: random.Random, prog, n_ops):
     idx = lf.index(prog)
     top = prog["nodes"]
     args = [n["id"] for n in top if n["k"] == "arg"]
-    scalars = [n["id"] for n in top if n["k"] not in ("arg", "init", "junk")]
+    scalars = [n["id"] for n in top if n["k"] not in ("arg", "init", "junk", "tcast")]
     anyv = args + scalars
     nxt = prog["n"]
     hist = []
     made = []
+    inlined = []   # (id of an inline result, model index)
+    newer = []     # ids of values made by operators of a newer default opset
     for _ in range(n_ops):
         r = rng.random()
-        if made and rng.random() < 0.2:
-            hist.append({"op": "build_new", "out": rng.choice(made), "drop": rng.random() < 0.7})
+        if inlined and scalars and rng.random() < 0.25:
+            # the same Var alone, then with a companion from a newer opset, then alone again
+            v = rng.choice(inlined)[0]
+            if not newer or rng.random() < 0.5:
+                hist.append({"op": "construct", "k": rng.choice(["id19", "id21"]), "a": rng.choice(scalars)})
+                newer.append(nxt)
+                made.append(nxt)
+                nxt += 1
+            d = rng.random() < 0.7
+            hist.append({"op": "build_new", "outs": [v], "drop": d})
+            hist.append({"op": "build_new", "outs": [v, rng.choice(newer)], "drop": d})
+            hist.append({"op": "build_new", "outs": [v], "drop": d})
+        elif made and rng.random() < 0.2:
+            k_ = rng.choice([1, 1, 2])
+            hist.append({"op": "build_new", "outs": rng.sample(made, min(k_, len(made))), "drop": rng.random() < 0.7})
         elif r < 0.5:
             req = lf.gen_request(rng, prog, allow_bad=True, allow_dup=(rng.random() < 0.35))
             if rng.random() < 0.12 and req["inputs"] and req["outputs"]:
@@ -307,6 +337,7 @@ def gen_history(rng: random.Random, prog, n_ops):
                     scalars.append(nxt)
                     anyv.append(nxt)
                     made.append(nxt)
+                    inlined.append((nxt, k))
                     nxt += 1
         elif args:
             ks = rng.sample(args, min(len(args), rng.randrange(1, 4)))
@@ -321,6 +352,8 @@ def gen_reference(rng: random.Random, prog):
     """A valid request with >= 1 input over the original pool (the request whose bytes are compared)."""
     for _ in range(20):
         req = lf.gen_request(rng, prog, allow_bad=False)
+        if "multi" in prog and all(o != prog["multi"] for _, o in req["outputs"]):
+            req["outputs"][0][1] = prog["multi"]  # the value that needs several operator domains
         e = lf.expected(prog, req)
         if e and e[0] == "ok":
             return req
@@ -346,7 +379,7 @@ def gen_reuse_family(rng: random.Random, n):
         p = copy.deepcopy(base)
         for nd in lf.walk(p["nodes"]):
             if nd["k"] == "arg":
-                nd["ty"] = lf.gen_type(rng)
+                nd["ty"] = lf.gen_type(rng, "e" in nd["ty"])  # keep tensor arguments tensors (Cast nodes refer to their dims)
             elif nd["k"] == "const":
                 nd["v"] = float(rng.randrange(-3, 4))
         progs.append(p)
@@ -377,4 +410,39 @@ def run_reuse_family(fam, rounds=2):
                 bad.append(["bytes:stale-after-address-reuse",
                             f"program {j} of a family of look-alike programs: {a} when built first, {b} when built again after its Vars were freed and others built"])
                 return bad
+    return bad
+
+
+# ----------------------------------------------------------------------------- Graph setters after a build
+def graph_setter_probe(prog, req):
+    """Low-level API: a Graph that has been built, then `with_arguments` / `with_name` / `with_opset` /
+    `with_doc`; the new Graph must build like one constructed from scratch. [[key, what]];
+    raises if the internal API is not there (the caller registers that as 'not observable')."""
+    from spox._graph import results
+
+    env = lf.realize(prog)
+    outs = {n: env[i] for n, i in req["outputs"]}
+    ins = [env[i] for _, i in req["inputs"]]
+    for (n, _), v in zip(req["inputs"], ins):
+        v._rename(n)
+    bad = []
+    try:
+        with warnings.catch_warnings():
+            warnings.simplefilter("ignore")
+            g = results(**outs)
+            g.get_arguments()  # builds, and memoises the result in g
+            want = list(results(**outs).with_arguments(*ins).get_arguments())
+            got = list(g.with_arguments(*ins).get_arguments())
+            if got != want:
+                bad.append(["graph-cache:stale-after-with_arguments",
+                            f"results(…) built, then .with_arguments({[n for n, _ in req['inputs']]}): arguments {got}, a Graph made from scratch has {want}"])
+            for label, f in (("with_name", lambda x: x.with_name("renamed")), ("with_doc", lambda x: x.with_doc("doc")),
+                             ("with_opset", lambda x: x.with_opset(("", 18)))):
+                a = f(g.with_arguments(*ins)).to_onnx_model().SerializeToString(deterministic=True)
+                b = f(results(**outs).with_arguments(*ins)).to_onnx_model().SerializeToString(deterministic=True)
+                if a != b:
+                    bad.append([f"graph-cache:stale-after-{label}", f"a built Graph then .{label}(…) serialises differently from one made from scratch"])
+    finally:
+        for v in ins:
+            v._rename(None)
     return bad
